@@ -54,7 +54,8 @@ fn keys<C: S>(seed: u64) -> Vec<(String, SecretKey<C>)> {
 }
 
 fn msgs(seed: u64) -> Vec<Vec<u8>> {
-    [0usize, 1, 32, 33, 127, 128, 255, 256, 4096].iter().map(|l| data(seed, &format!("msg-{}", l), *l)).collect()
+    // indices 0..=8 are referred to by number below; the large band follows
+    [0usize, 1, 32, 33, 127, 128, 255, 256, 4096, 16383, 16384, 65535, 65536, 65537, 2097152].iter().map(|l| data(seed, &format!("msg-{}", l), *l)).collect()
 }
 
 fn transcript<C: S>(g: &str, seed: u64, m: &mut Map<String, Value>) {
@@ -292,6 +293,17 @@ fn produce<C: S>(g: &str, seed: u64, out: &mut Vec<Value>) {
             out.push(json!({"kind":"signcrypt","group":g,"scheme":sn,"sk":hx(sk.to_be_bytes()),"ct":hx(Vec::from(&ct)),"ct_json":String::from_utf8(serde_json::to_vec(&ct).unwrap()).unwrap(),"expect":hx(msg)}));
             let tl = pk.encrypt_time_lock(s, msg, b"xb id").unwrap();
             out.push(json!({"kind":"timelock","group":g,"scheme":sn,"sig":hx(Vec::from(&sk.sign(s, b"xb id").unwrap())),"ct":hx(Vec::from(&tl)),"expect":hx(msg)}));
+        }
+        // large band: 64 KiB payloads and identifiers (hash-to-curve inputs beyond 16 bit lengths)
+        for msg in ms.iter().filter(|m| m.len() == 65536 || m.len() == 65537) {
+            let ct = pk.sign_crypt(s, msg);
+            out.push(json!({"kind":"signcrypt","group":g,"scheme":sn,"sk":hx(sk.to_be_bytes()),"ct":hx(Vec::from(&ct)),"ct_json":String::from_utf8(serde_json::to_vec(&ct).unwrap()).unwrap(),"expect":hx(msg)}));
+            let tl = pk.encrypt_time_lock(s, b"short", msg).unwrap();
+            out.push(json!({"kind":"timelock","group":g,"scheme":sn,"sig":hx(Vec::from(&sk.sign(s, msg).unwrap())),"ct":hx(Vec::from(&tl)),"expect":hx(b"short")}));
+            let pmsg: Vec<u8> = if sn == "MessageAugmentation" { let mut m = Vec::from(&pk); m.extend_from_slice(msg); m } else { msg.clone() };
+            let sig = sk.sign(s, msg).unwrap();
+            let pt = ProofOfKnowledgeTimestamp::<C>::generate(&pmsg, sig).unwrap();
+            out.push(json!({"kind":"pok_ts","group":g,"scheme":sn,"pk":hx(Vec::from(&pk)),"msg":hx(&pmsg),"proof":hx(Vec::from(&pt)),"expect":"ok"}));
         }
         let msg = &ms[3];
         let pmsg: Vec<u8> = if sn == "MessageAugmentation" { let mut m = Vec::from(&pk); m.extend_from_slice(msg); m } else { msg.clone() };
